@@ -430,6 +430,26 @@ func runP7Mut(sc M) {
 		})
 		cases = append(cases, M{"obs": obs, "lib": verdict(ok, verr, o), "cert": ci, "panic": o.Panic})
 	}
+	// one parsed object verified against the certificates in turn (nothing learnt about one certificate may carry over to another):
+	// each verdict is judged like the fresh-parse verdicts above
+	for _, order := range [][]int{{0, 2, 1, 0}, {2, 0, 2}, {1, 2, 0}} {
+		var p *pkcs7.PKCS7
+		guard(func() error { p, _ = pkcs7.ParsePKCS7(mut); return nil })
+		if p == nil {
+			break
+		}
+		for _, ci := range order {
+			if ci >= len(certs) || certs[ci] == nil {
+				continue
+			}
+			obs, _ := observeP7(mut, certs[ci], nil)
+			callStart(id, "Verify(shared)", M{"cert": ci})
+			var ok bool
+			var verr error
+			o, _ := guard(func() error { ok, verr = p.Verify(certs[ci]); return nil })
+			cases = append(cases, M{"obs": obs, "lib": verdict(ok, verr, o), "cert": ci, "panic": o.Panic, "shared": fmt.Sprint(order)})
+		}
+	}
 	out := M{"sc": id, "ev": "call-end", "call": "p7mut", "source": src.name, "mutation": what, "cases": cases, "projected": true, "parse_ok": true, "marshal_equal": true}
 	if what == "unchanged" {
 		// C16: third-party blob parses, and re-encoding the parsed attributes reproduces the signed bytes
